@@ -191,7 +191,19 @@ fn reuse(ctx: &mut Ctx) {
                 Err(_) => { ctx.rng.next(); vec![] }
             }
         } else { vec![] };
-        let (target, shared_hist) = if shared.len() >= 2 { let mut s = shared; let t = s.pop().unwrap(); (t, s) } else {
+        let (target, shared_hist) = if shared.len() >= 2 { let mut s = shared; let t = s.pop().unwrap(); (t, s) } else if i % 3 == 1 {
+            // a target that takes every arm of MemoryInstance::memcopy (stack->stack, stack->heap, heap->heap, heap->stack)
+            // and logs what arrived: which arm runs must not depend on what the instance's buffers looked like before
+            let s: Vec<u8> = vec![
+                op::cfei(64), op::subi(0x20, RegId::SP, 64), op::movi(0x10, 42), op::sw(0x20, 0x10, 0),
+                op::addi(0x21, 0x20, 32), op::mcpi(0x21, 0x20, 8), op::lw(0x11, 0x21, 0), op::log(0x11, RegId::ZERO, RegId::ZERO, RegId::ZERO),
+                op::movi(0x12, 64), op::aloc(0x12), op::mcpi(RegId::HP, 0x20, 8), op::lw(0x13, RegId::HP, 0), op::log(0x13, RegId::ZERO, RegId::ZERO, RegId::ZERO),
+                op::addi(0x22, RegId::HP, 16), op::mcpi(0x22, RegId::HP, 8), op::lw(0x14, 0x22, 0), op::log(0x14, RegId::ZERO, RegId::ZERO, RegId::ZERO),
+                op::addi(0x23, 0x20, 48), op::mcpi(0x23, 0x22, 8), op::lw(0x15, 0x23, 0), op::log(0x15, RegId::ZERO, RegId::ZERO, RegId::ZERO),
+                op::ret(RegId::ONE)].into_iter().collect();
+            let seed = ctx.rng.next();
+            match ctx.guard(|| g::gen_case(&mut crate::ctx::Rng(seed), g::Knobs::normal(), 100_000, Some(s))) { Ok(c) => { ctx.count("reuse.target.memcopy-arms"); (c, vec![]) } Err(_) => continue }
+        } else {
             let Some(t) = mk(ctx, false) else { continue }; (t, vec![]) };
         let tag = format!("reuse#{i}");
         // fresh, twice (determinism)
@@ -208,7 +220,8 @@ fn reuse(ctx: &mut Ctx) {
         for _ in 0..hist_len {
             let unl = ctx.rng.chance(1, 3);
             let Some(h) = mk(ctx, unl) else { continue };
-            match ctx.rng.below(4) {
+            let forced = i % 3 == 1 && shared_hist.is_empty() && kinds.is_empty();   // the memcopy-arms target: always after a big heap
+            match if forced { 1 } else { ctx.rng.below(4) } {
                 0 => {
                     // abandoned debug session
                     vm.set_breakpoint(Breakpoint::script(ctx.rng.below(4)));
@@ -219,9 +232,14 @@ fn reuse(ctx: &mut Ctx) {
                 }
                 1 => {
                     // a script leaving a large heap and a deep stack behind
-                    let big: Vec<u8> = vec![op::movi(0x10, 200_000), op::aloc(0x10), op::sw(RegId::HP, RegId::ONE, 0), op::cfei(100_000), op::not(0x11, RegId::ZERO), op::sw(RegId::SSP, 0x11, 0), op::ret(RegId::ONE)].into_iter().collect();
+                    // heap sizes on both sides of the heap vector's power-of-two capacities, up to more than half of the
+                    // memory (the vector then spans all 64 MiB and stays allocated after `reset`)
+                    let sizes = [40u64 << 20, 200_000, 1 << 20, (16 << 20) + 8];
+                    let heap = if forced { sizes[(i as usize / 3) % 4] } else { *ctx.rng.pick(&sizes) };
+                    ctx.count(&format!("reuse.history.heap-left-behind.{}KiB", heap >> 10));
+                    let big: Vec<u8> = vec![op::movi(0x10, (heap >> 10) as u32), op::slli(0x10, 0x10, 10), op::addi(0x10, 0x10, (heap & 0x3ff) as u16), op::aloc(0x10), op::sw(RegId::HP, RegId::ONE, 0), op::cfei(100_000), op::not(0x11, RegId::ZERO), op::sw(RegId::SSP, 0x11, 0), op::ret(RegId::ONE)].into_iter().collect();
                     let seed = ctx.rng.next();
-                    if let Ok(c) = ctx.guard(|| g::gen_case(&mut crate::ctx::Rng(seed), g::Knobs::normal(), 1_000_000, Some(big))) { let _ = ctx.guard(|| run_on(&mut vm, &c)); }
+                    if let Ok(c) = ctx.guard(|| g::gen_case(&mut crate::ctx::Rng(seed), g::Knobs::normal(), 20_000_000, Some(big))) { let _ = ctx.guard(|| run_on(&mut vm, &c)); }
                     kinds.push("big-heap-deep-stack");
                 }
                 _ => { let _ = ctx.guard(|| run_on(&mut vm, &h)); kinds.push(if unl { "tx-unlisted" } else { "tx" }); }
